@@ -35,7 +35,7 @@ EXPECTED_THEOREMS = {
     "C12": ["last_request_decision", "nothing_after_last", "stays_open", "close_after_client_eof", "trace_extends_state", "closingRequest_covers", "closing_run", "pipeline_then_closing_request", "bytes_after_closing_request_ignored", "open_pipeline_waits"],
     "C18": ["continue_exactly_once", "continue_is_flushed", "expect_recognised", "no_expect_no_continue", "expect_body_not_preread", "framing_expectation", "pipeline_statuses", "no_expectation_only_finals", "no_expectation_no_interim", "interim_count_general", "interim_count", "non_interim_statuses"],
     "C04": ["pieces_irrelevant", "dechunk_enchunk", "no_body_bytes", "client_roundtrip", "oracle_of_roundtrip"],
-    "C05": ["default_threshold", "choose_eq_spec", "never_chunked_for_old_or_nobody", "framing_headers"],
+    "C05": ["default_threshold", "choose_eq_spec", "never_chunked_for_old_or_nobody", "framing_headers", "te_preference", "admissible_elements"],
     "C19": ["headers_policy", "headers_policy_append", "declared_length", "protected_never_stored",
             "content_type_at_most_once", "date_server_once", "printed_headers_shape", "model_meets_oracle", "ctor_lengths"],
 }
